@@ -226,6 +226,7 @@ pub fn generate(seed: u64, thorough: bool, emit: &mut dyn FnMut(String)) {
     }
     hardening_families(seed, thorough, emit);
     range_edge_families(seed, thorough, emit);
+    round4_families(seed, thorough, emit);
 }
 
 /// the same polynomial in every representation the integrators accept: dense / sparse, variables other than x,
@@ -655,4 +656,158 @@ pub fn range_edge_families(seed: u64, thorough: bool, emit: &mut dyn FnMut(Strin
             emit(simpson(&repr_any(&mut rng, &cs, w), a, b, *rng.pick(&ns)));
         }
     }
+}
+
+// ---------------------------------------------------------------- round-4 families: the top binades, repeated sample values
+
+pub fn round4_families(seed: u64, thorough: bool, emit: &mut dyn FnMut(String)) {
+    let mut rng = Rng::new(Rng::new(seed ^ 0xC05_0004).next());
+    let mul = if thorough { 12 } else { 1 };
+    let simpson = |p: &AnyPoly, a: f64, b: f64, n: usize| format!("simpson {} {} {} {n}", req_any(p), rbits(a), rbits(b));
+    let romberg = |p: &AnyPoly, a: f64, b: f64, cap: u64, tol: f64| {
+        format!("romberg {} {} {} {cap} {}", req_any(p), rbits(a), rbits(b), rbits(tol))
+    };
+    let ns: [usize; 18] = [1, 2, 2, 3, 4, 4, 5, 6, 7, 8, 9, 10, 11, 16, 23, 40, 64, 200];
+
+    // ---- (A6) ABSCISSAE IN THE TOP BINADES: both ends of the interval between 2^1015 and f64::MAX (half of them beyond
+    //      2^1023), same sign or across 0, narrow (relative width 2^-1..2^-50) or wide; degree 0 and 1 with a slope of
+    //      2^-1030..2^-1010, so that f is of ordinary size (or, one time in four, a few binades under the top).  Every node,
+    //      every sample, every weighted sum, h, 3 h and the integral are finite: the result must be finite and exact to
+    //      rounding (tools/props/c05.py `in_range_exact` judges abscissae up to 2^1024 - 2^990).  A node formed as the
+    //      mean of its neighbours `(left + xi) / 2`, as `a + (b - a) * i / n`, a midpoint `(a + b) / 2`, `b * b - a * a`
+    //      for a linear integrand ... overflow here although nothing in the rule does.
+    for r in 0..400 * mul {
+        let ex = match r % 4 {
+            0 | 1 => 1023,
+            2 => 1022,
+            _ => rng.range(1015, 1021) as i32,
+        };
+        let m = match rng.below(4) {
+            0 => 1.0,
+            1 => rng.range(8, 15) as f64 / 8.0,
+            _ => rng.uniform(1.0, 1.999),
+        };
+        let sgn = if rng.chance(1, 3) { -1.0 } else { 1.0 };
+        let a = sgn * m * pow2(ex);
+        let mut b = match rng.below(8) {
+            7 => a * rng.uniform(0.02, 0.5),
+            0 | 1 | 2 => {
+                let d = pow2(-(rng.range(1, 50) as i32));
+                let up = a * (1.0 + d);
+                if up.is_finite() && up.abs() <= 1.99 * pow2(1023) && rng.chance(1, 2) { up } else { a * (1.0 - d) }
+            }
+            3 => a * rng.uniform(0.5, 0.999),
+            4 => {
+                let up = a * rng.uniform(1.001, 1.9);
+                if up.is_finite() && up.abs() <= 1.99 * pow2(1023) { up } else { a * 0.75 }
+            }
+            5 => a / 2.0,
+            _ => -a * pow2(-(rng.range(1, 6) as i32)),
+        };
+        if b == a {
+            b = a / 2.0;
+        }
+        let (a, b) = if rng.chance(1, 4) { (b, a) } else { (a, b) };
+        let x = a.abs().max(b.abs());
+        let xe = x.log2().floor() as i32; // 2^xe <= X < 2^(xe+1)
+        let deg = if r % 6 == 5 { 0 } else { 1 };
+        // f(x) = s (x / 2^xe) + c0 at unit scale, then lifted by 2^j
+        let slope = *rng.pick(&[1.0, -1.0, 0.5, 1.5, -0.75, 2.0, 0.125, -3.0]);
+        let mid = a / 2.0 + b / 2.0;
+        let c0 = match rng.below(5) {
+            0 => 0.0,
+            1 => -1.0,
+            2 => -slope * (mid * pow2(-xe)), // f vanishes near the middle of the interval
+            3 => rng.dyadic(24, 3),
+            _ => rng.range(-3, 3) as f64,
+        };
+        let n = if r % 3 == 0 { 1 + rng.below(200) as usize } else { *rng.pick(&ns) };
+        let romb = r % 9 == 8;
+        let base: Vec<f64> = if deg == 0 { vec![if c0 == 0.0 { 1.0 } else { c0 }] } else { vec![c0, slope * pow2(-xe)] };
+        let lift = if r % 4 == 3 {
+            // a few binades under the top
+            match top_shift(&base, a, b, n, romb) {
+                Some(t) => (t - rng.below(6) as i32).max(0).min(1000),
+                None => 0,
+            }
+        } else {
+            -(rng.range(-3, 12) as i32)
+        };
+        let scaled: Vec<f64> = base.iter().map(|c| c * pow2(lift)).collect();
+        if scaled.iter().any(|c| !c.is_finite()) || (deg == 1 && scaled[1] == 0.0) {
+            continue;
+        }
+        // (the dense form must not carry slots beyond the degree: x^2 is infinite here, and 0 * inf is NaN; an explicit
+        // zero SLOPE is fine: x itself is finite)
+        let cs = if deg == 0 && rng.chance(1, 3) { vec![scaled[0], 0.0] } else { scaled };
+        let w = rng.below(5);
+        if romb {
+            emit(romberg(&repr_any(&mut rng, &cs, w), a, b, 2 + rng.below(8), *rng.pick(&[10.0, 1.0, 1e-3, 1e-6, 1e-9])));
+        } else {
+            emit(simpson(&repr_any(&mut rng, &cs, w), a, b, n));
+        }
+    }
+
+    // ---- (I1) REPEATED SAMPLE VALUES: f(a) = f(b), f equal at every node of the rule, f equal at the ends and the middle,
+    //      although f is not constant: p = c + q(x) prod (x - x_i) over chosen nodes x_i of the rule.  A "the integrand is
+    //      constant" / "nothing changed since the last sample" decision made by comparing VALUES shows here.
+    for r in 0..240 * mul {
+        let n = *rng.pick(&[1usize, 2, 2, 3, 4, 4, 5, 6, 7, 8, 10, 16]);
+        let a = rng.range(-16, 12) as f64 / 4.0;
+        let h = *rng.pick(&[0.25, 0.5, 1.0, 0.125, 2.0]);
+        let b = a + h * n as f64;
+        let (a, b) = if rng.chance(1, 6) { (b, a) } else { (a, b) };
+        let hh = (b - a) / n as f64;
+        let nodes: Vec<f64> = match rng.below(6) {
+            4 => vec![a, a + hh, b],                                      // the first two nodes and the end
+            5 => vec![a, b - hh, b],                                      // the start and the last two nodes
+            0 => vec![a, b],                                              // equal at the ends
+            1 => vec![a, b, a / 2.0 + b / 2.0],                           // ends and middle
+            2 => (0..=n.min(6)).map(|i| a + hh * i as f64).collect(),     // every node (n <= 6), or the first seven
+            _ => vec![a, a + hh],                                         // the first two nodes
+        };
+        let c = rng.range(-3, 3) as f64;
+        let mut cs = expand_small(*rng.pick(&[1.0, -1.0, 0.5, 2.0]), &nodes);
+        if cs.len() <= 7 && rng.chance(1, 2) {
+            // times (x - s) or (x^2 + 1)
+            if rng.chance(1, 2) {
+                cs = expand_small_times(&cs, rng.range(-2, 2) as f64);
+            } else {
+                let mut next = vec![0.0; cs.len() + 2];
+                for (k, v) in cs.iter().enumerate() {
+                    next[k + 2] += *v;
+                    next[k] += *v;
+                }
+                cs = next;
+            }
+        }
+        cs[0] += c;
+        if cs.iter().any(|v| !v.is_finite()) {
+            continue;
+        }
+        let w = rng.below(5);
+        if r % 4 == 3 {
+            emit(romberg(&repr_any(&mut rng, &cs, w), a, b, 2 + rng.below(8), *rng.pick(&[10.0, 1.0, 1e-3, 1e-6, 1e-9, 0.0])));
+        } else {
+            emit(simpson(&repr_any(&mut rng, &cs, w), a, b, n));
+        }
+    }
+}
+
+/// coefficients (index = power) of `c prod (x - r)`
+fn expand_small(c: f64, roots: &[f64]) -> Vec<f64> {
+    let mut cs = vec![c];
+    for r in roots {
+        cs = expand_small_times(&cs, *r);
+    }
+    cs
+}
+
+fn expand_small_times(cs: &[f64], r: f64) -> Vec<f64> {
+    let mut next = vec![0.0; cs.len() + 1];
+    for (k, a) in cs.iter().enumerate() {
+        next[k + 1] += *a;
+        next[k] -= *a * r;
+    }
+    next
 }
